@@ -15,6 +15,7 @@ from typing import List, Optional, Set
 
 from ..model import Program, AnalysisError, FuncInfo, walk_local, dotted
 from ..report import RuleResult
+from .usertruth import user_truth
 from ..astutil import src, site, calls_in, call_name, is_self_attr, is_super_call, kwarg, names_in, const_value
 from ..callgraph import self_closure, resolve_call, Ctx
 from ..cfg import CFG
@@ -382,4 +383,4 @@ def pd_single(prog: Program) -> RuleResult:
 
 def run(prog: Program, tier: str) -> List[RuleResult]:
     alias = pd_alias(prog)
-    return [mc_cover(prog), mc_hook(prog), alias, pd_aug(prog, not alias.failed), pd_seq(prog), pd_single(prog)]
+    return [mc_cover(prog), mc_hook(prog), alias, pd_aug(prog, not alias.failed), pd_seq(prog), pd_single(prog), user_truth(prog, ["property_descriptor.property_descriptor", "property_descriptor.monitored_container", "property_descriptor.property_descriptor_relation"], 2)]
